@@ -461,7 +461,10 @@ Definition holds (o : obs) (s : st) (kv : string * value) : Prop :=
 Record Inv (o : obs) (s : st) : Prop := {
   inv_wf : wf_st o s;
   inv_nodup : NoDup (keys (sel s));
-  inv_holds : forall kv, In kv (sel s) -> holds o s kv
+  inv_holds : forall kv, In kv (sel s) -> holds o s kv;
+  (* a retained weights= / flags= entry is the current weights / flags selection *)
+  inv_wk : forall v, lookup "weights" (sel s) = Some v -> wk s = v;
+  inv_flk : forall v, lookup "flags" (sel s) = Some v -> flk s = v
 }.
 
 Lemma inv_init : forall o, Inv o (init o).
@@ -470,6 +473,8 @@ Proof.
   - intro d. destruct d; simpl; apply length_ones.
   - simpl. repeat constructor; simpl; intuition discriminate.
   - intros kv [H|[H|[]]]; subst; exact Logic.I.
+  - intros v H. discriminate.
+  - intros v H. discriminate.
 Qed.
 
 Lemma all_ok_in : forall o l kv, all_ok o l = true -> In kv l -> crit o (fst kv) (snd kv) <> CErr.
@@ -490,11 +495,15 @@ Proof.
     intros i Hi. rewrite nth_select_fn in Hi. apply andb_true_iff in Hi. destruct Hi as [_ Hi].
     rewrite forallb_forall in Hi. specialize (Hi kv H). unfold cbit in Hi. rewrite C in Hi.
     destruct d; simpl in Hi; exact Hi.
+  - intros v H. rewrite sel_select_fn in H. change (wk (select_fn o s kw)) with (lastw "weights" (sel_of s kw) (wk s)).
+    rewrite lastw_lookup by (apply NoDup_sel_of; exact N). rewrite H. reflexivity.
+  - intros v H. rewrite sel_select_fn in H. change (flk (select_fn o s kw)) with (lastw "flags" (sel_of s kw) (flk s)).
+    rewrite lastw_lookup by (apply NoDup_sel_of; exact N). rewrite H. reflexivity.
 Qed.
 
 Lemma inv_select : forall o s kw s', Inv o s -> select o s kw = Ok s' -> Inv o s'.
 Proof.
-  intros o s kw s' [W N _] H. rewrite select_closed in H.
+  intros o s kw s' [W N _ _ _] H. rewrite select_closed in H.
   destruct (precheck kw); [discriminate|].
   destruct (all_ok o (sel_of s kw)) eqn:A; [|discriminate].
   inversion H. subst. apply inv_select_fn; assumption.
@@ -511,7 +520,7 @@ Proof. induction 1; [apply inv_init | eapply inv_select; eauto]. Qed.
 (* ---------------------------------------------------------------- refinement *)
 Lemma all_ok_sel_of : forall o s kw, Inv o s -> NoDup (keys kw) -> all_ok o (sel_of s kw) = all_ok o kw.
 Proof.
-  intros o s kw [W N Hh] Nk. apply eq_iff_eq_true. unfold all_ok. rewrite !forallb_forall. split; intros H [k v] Hin.
+  intros o s kw [W N Hh _ _] Nk. apply eq_iff_eq_true. unfold all_ok. rewrite !forallb_forall. split; intros H [k v] Hin.
   - simpl. destruct (special_dec k) as [S|S]; [rewrite (crit_special o k v S); reflexivity|].
     apply (H (k, v)). apply kw_in_sel_of; assumption.
   - simpl. apply in_sel_of in Hin; auto. destruct Hin as [S|[Hin|[Hin _]]].
@@ -524,7 +533,7 @@ Lemma cbit_sel_of : forall o s kw d i, Inv o s -> NoDup (keys kw) ->
   nth i (base o s kw d) false = true ->
   forallb (cbit o d i) (sel_of s kw) = forallb (cbit o d i) kw.
 Proof.
-  intros o s kw d i [W N Hh] Nk B. apply eq_iff_eq_true. rewrite !forallb_forall. split; intros H [k v] Hin.
+  intros o s kw d i [W N Hh _ _] Nk B. apply eq_iff_eq_true. rewrite !forallb_forall. split; intros H [k v] Hin.
   - destruct (special_dec k) as [S|S]; [unfold cbit; simpl; rewrite (crit_special o k v S); reflexivity|].
     apply (H (k, v)). apply kw_in_sel_of; assumption.
   - apply in_sel_of in Hin; auto. destruct Hin as [S|[Hin|[Hin Hp]]].
